@@ -22,6 +22,10 @@ for d in sorted(os.listdir(os.path.join(HERE, "seeded"))):
                     break
     files = ", ".join(os.path.basename(f) for f in m.get("files", [])) or "-"
     caught = ", ".join(m.get("caught_by", [])) or "**none**"
+    if m.get("caught_on_final_tree") == []:
+        caught += " (earlier trees; not observable on the final tree, see meta.json)"
+    elif m.get("note") and not m.get("caught_by"):
+        caught = "**none** (see meta.json)"
     keys = []
     for c in m.get("caught_by", []):
         for k in m["checks"][c]["keys"][:2]:
